@@ -484,9 +484,71 @@ static void stress_struct(int nth, long nops, uint64_t seed)
 	VF_CHECK(f.a == sum && f.b == -sum, "Atomic<struct>: members updated through operator-> / locked() by ", nth, " threads: a=", f.a, " b=", f.b, ", the sum of all updates is ", sum);
 }
 
-static const int NKINDS = 14;
+
+// Atomic<handle>: some threads replace the handle (a = fresh object, under the Atomic's lock), others copy it out through the
+// implicit conversion `H h = a;` and through `~a` (both documented as synchronised copies) and use / drop their copy outside the
+// lock. Every copy must be a live, intact object; nothing is left alive at the end.
+template <class H>
+static bool self_ok(const H& h);
+template <>
+bool self_ok<Array<Elem>>(const Array<Elem>& h) { return h.length() == 2 && h[0].ok(h[0].oid) && h[1].ok(h[0].oid); }
+template <>
+bool self_ok<Shared<Payload>>(const Shared<Payload>& h) { return h->ok(h->oid); }
+template <>
+bool self_ok<Map<int, Elem>>(const Map<int, Elem>& h)
+{
+	const Elem* e = h.find(7);
+	return h.length() == 1 && e && e->ok(e->oid);
+}
+template <class H>
+static void stress_atomic_handle(int nth, long nops, uint64_t seed, const char* name)
+{
+	if (nops > 60000)
+		nops = 60000;
+	{
+		H warm = Kind<H>::make(0);
+		(void)self_ok(warm);
+	}
+	int live0 = g_live;
+	g_bad = 0;
+	{
+		Atomic<H>* a = new Atomic<H>(Kind<H>::make(1));
+		std::vector<std::thread*> ts;
+		for (int t = 0; t < nth; t++)
+			ts.push_back(new std::thread([=]() {
+				ref::SplitMix r(seed * 7919ULL + t);
+				for (long k = 0; k < nops; k++) {
+					if (t % 4 == 0) { // writer
+						*a = Kind<H>::make(2 + t * 1000000 + (int)(k % 900000));
+						if (k % 64 == 0)
+							sched_yield();
+					}
+					else if (r.next() & 1) {
+						H h = *a; // operator T()
+						if (!self_ok(h))
+							g_bad++;
+					}
+					else {
+						H h = ~*a;
+						if (!self_ok(h))
+							g_bad++;
+					}
+				}
+			}));
+		for (auto t : ts) {
+			t->join();
+			delete t;
+		}
+		delete a;
+	}
+	VF_CHECK(g_bad == 0, name, ": ", g_bad.load(), " copies taken out of the Atomic were not intact objects");
+	VF_CHECK(g_live == live0, name, ": payload instances alive after every handle was dropped: ", g_live - live0);
+}
+
+static const int NKINDS = 17;
 static const char* KINDS[] = {"Array", "Map", "HashMap", "Shared", "SmartObject", "AtomicCount", "Atomic<int>", "Atomic<Long>", "Atomic<double>",
-                              "Atomic<double>.muldiv", "AtomicCount.tickets", "Atomic<int>.tickets", "Atomic<Array>.append", "Atomic<struct>.members"};
+                              "Atomic<double>.muldiv", "AtomicCount.tickets", "Atomic<int>.tickets", "Atomic<Array>.append", "Atomic<struct>.members",
+                              "Atomic<Array<Elem>>.copy_out", "Atomic<Shared>.copy_out", "Atomic<Map>.copy_out"};
 
 void vf_run_case(const std::string& part, const vf::Case& c)
 {
@@ -539,6 +601,15 @@ void vf_run_case(const std::string& part, const vf::Case& c)
 			break;
 		case 13:
 			stress_struct(nth, nops, seed);
+			break;
+		case 14:
+			stress_atomic_handle<Array<Elem>>(nth, nops, seed, KINDS[kind]);
+			break;
+		case 15:
+			stress_atomic_handle<Shared<Payload>>(nth, nops, seed, KINDS[kind]);
+			break;
+		case 16:
+			stress_atomic_handle<Map<int, Elem>>(nth, nops, seed, KINDS[kind]);
 			break;
 		}
 		vf::stats().cls(vf::str("stress.", KINDS[kind]));
